@@ -167,7 +167,7 @@ def check(ctx):
     g = ctx.py.func(TRAJ, "Trajectory.unitcell_vectors.getter")
     _r3_getter_setter(ctx, g)
 
-    ctx.rule("C17-R8", "wherever cell lengths and cell angles are passed together they are read from the same object")
+    ctx.rule("C17-R8", "wherever cell lengths and cell angles are passed together they are read from the same object; a saver whose format holds lengths only refuses every frame whose angles it cannot express")
     r8_cell_fields_travel_together(ctx)
     # ------------------------------------------------------------------ R4
     _r4(ctx)
@@ -338,6 +338,7 @@ def _r4(ctx):
                            "only %s is assigned on `%s`: the cell becomes incomplete" % (sorted(d), base))
     # the unitcell_vectors setter evaluated (sa/tensym.py): None / an all-zero box clears both fields; a box sets both, from the same conversion
     _vectors_setter_by_evaluation(ctx)
+    _mdcrd_rectilinear_guard(ctx)
     hv = ctx.py.func(TRAJ, "Trajectory._have_unitcell.getter")
     t = src(hv)
     ctx.decide("self._unitcell_lengths is not None and self._unitcell_angles is not None" in t, "C17-R4", hv, TRAJ, "Trajectory._have_unitcell.getter",
@@ -856,6 +857,40 @@ def _r4_slice_by_evaluation(ctx, sl):
                 ctx.violated("C17-R4", sl, TRAJ, "Trajectory.slice", what, "array operations do not fit: %s" % e)
             except TUnsupported as e:
                 ctx.undecided("C17-R4", sl, TRAJ, "Trajectory.slice", what, "not evaluable: %s" % e)
+
+
+def _mdcrd_rectilinear_guard(ctx):
+    """The mdcrd format stores three lengths per frame and no angles.  Trajectory.save_mdcrd evaluated on model trajectories whose cell is
+    rectangular in every frame / skewed in the first frame / rectangular in the first frame and skewed in a later one: a cell the file cannot
+    describe is refused before anything is written (the loader would hand back 90-degree angles with the lengths of a skewed cell)."""
+    from ..tensym import TenSym, Ten, Obj, Raised
+    from ..pysym import Unsupported as PUnsupported
+    fn = ctx.py.func(TRAJ, "Trajectory.save_mdcrd")
+    ev0 = TenSym({})
+    for what, angles, refuse in (("rectangular in every frame", [[90, 90, 90], [90, 90, 90], [90, 90, 90]], False), ("skewed in the first frame", [[90, 90, 120], [90, 90, 90], [90, 90, 90]], True),
+                                 ("rectangular in the first frame, skewed in the last", [[90, 90, 90], [90, 90, 90], [90, 60, 90]], True), ("no cell", None, False)):
+        desc = "save_mdcrd of a cell %s is %s" % (what, "refused before the file is opened" if refuse else "written")
+        opened = []
+
+        def mkfile(ev, call, _o=opened):
+            f = Obj(tag="mdcrd file", distance_unit="angstroms", _lenient=True)
+            f.write = lambda *a_, **k_: None
+            f.__enter__ = lambda: f
+            _o.append(f)
+            return f
+        me = Obj(tag="traj", xyz=Ten.sym("x", (3, 2, 3)), unitcell_lengths=(Ten.sym("L", (3, 3)) if angles is not None else None), unitcell_angles=(ev0.to_ten(angles) if angles is not None else None),
+                 _have_unitcell=angles is not None, n_frames=3, _lenient=True)
+        me._check_valid_unitcell = lambda: None
+        try:
+            ts = TenSym({"Trajectory": Obj(_distance_unit="nanometers")}, models={"MDCRDTrajectoryFile": mkfile, "in_units_of": lambda ev, c: ev.ex(c.args[0])})
+            ts.module_env = {"Trajectory": Obj(_distance_unit="nanometers")}
+            ts.run_fn(fn, self=me, filename="FILE")
+            ctx.decide(not refuse and len(opened) == 1, "C17-R8", fn, TRAJ, "Trajectory.save_mdcrd", desc, "",
+                       "a trajectory whose cell is %s is written to a format without angles: the skewed frames come back as rectangular cells of another volume" % what if refuse else "the file is opened %d times" % len(opened))
+        except Raised as e:
+            ctx.decide(refuse and not opened, "C17-R8", fn, TRAJ, "Trajectory.save_mdcrd", desc, "", "refused: %s%s" % ((e.exc or e), " after the file was opened" if opened else ""))
+        except PUnsupported as e:
+            ctx.undecided("C17-R8", fn, TRAJ, "Trajectory.save_mdcrd", desc, "not evaluable: %s" % e)
 
 
 def _vectors_setter_by_evaluation(ctx):
